@@ -279,3 +279,15 @@ Fixpoint flush_seq (tz : string -> Z -> Z) (m : intervals) (route gkey : string)
 (* GroupMarker.Muted: (names, len(names) > 0) *)
 Definition marker_muted (marker : option (list string)) : list string * bool :=
   match marker with Some l => (l, negb (beq l [])) | None => ([], false) end.
+
+(* ---- dispatch.NewRoute: which interval lists a route works with ----
+   newRoute copies the parent's RouteOpts (receiver, group_by, timers, labels are inherited) and then sets
+   opts.MuteTimeIntervals / opts.ActiveTimeIntervals to the route's OWN configured lists unconditionally:
+   the two lists are never inherited. route_lists = the effective (mute, active) lists of every route of a
+   configured tree, depth-first pre-order. *)
+Inductive rnode := RNode (mute active : list string) (kids : list rnode).
+Fixpoint route_lists (r : rnode) : list (list string * list string) :=
+  match r with
+  | RNode mu ac kids =>
+      (mu, ac) :: (fix go (l : list rnode) := match l with [] => [] | k :: t => route_lists k ++ go t end) kids
+  end.
